@@ -35,6 +35,17 @@ REQUIRED_THEOREMS = [
     "SpecVerif.Props.C05.ov_conservative",
     "SpecVerif.Props.C05.with_keywords_builds_overflow",
     "SpecVerif.Props.C05.overflow_collects_extras",
+    "SpecVerif.Props.C05.bootstrap_prep_closed_form",
+    "SpecVerif.Props.C05.decorator_preparer_registered",
+    "SpecVerif.Props.C05.method_beats_decorator",
+    "SpecVerif.Props.C05.untouched_subclass_inherits",
+    "SpecVerif.Props.C05.helper_prepares_as_setattr",
+    "SpecVerif.Props.C05.helper_prepares_as_setattr_partial",
+    "SpecVerif.Props.C05.redefault_keeps_callback",
+    "SpecVerif.Props.C05.redefault_keeps_callback_no_method",
+    "SpecVerif.Props.C05.redefault_drops_decorator_witness",
+    "SpecVerif.Props.C05.helper_owner_spec_witness",
+    "SpecVerif.Props.C05.decorator_preparer_applied",
 ]
 RULE = (
     "case = class family (2 hand-written families + seeded random families from the grammar: int/str/bool/float/"
@@ -52,6 +63,16 @@ RULE = (
     "arguments / assignment / update with DIFFERENT keyword sets, interleaved with constructions for other "
     "attributes and classes; histories of `_get_function_args` calls on fresh constructors of every kind (builtin, "
     "no __init__, lambda/def/class with fixed and **kwargs signatures, spec classes with and without overflow). "
+    "Callbacks declared in every spelling (families decl/decllz + decorated random families, eager and lazy): "
+    "`_prepare_<a>` / `_prepare_<item>` methods, `@<a>.preparer` / `@<a>.item_preparer` decorators on `Attr(...)` objects "
+    "(with default, default_factory, no default, invalidated_by), both at once; inherited untouched by spec and plain "
+    "subclasses (also with a differing do_not_copy), by re-defaulting / re-annotating spec subclasses, by spec subclasses "
+    "that redeclare the attribute with a new Attr(default=…) / Attr(default_factory=…) / Attr() / field(…) object (annotated "
+    "or not, with or without new decorators); methods overridden in spec and plain subclasses with and without a new "
+    "declaration; spec subclasses that merely re-default an attribute (callback by method, by decorator, by both), with and without a "
+    "`_prepare_` method of their own, also below classes that only override the methods / redeclare / re-annotate; the raw declarations go to the model as `pdecl` lines and are resolved by Decl.bootstrap; directed: every "
+    "route x every prepared attribute x every receiver class with values the callback changes, defaults through the "
+    "callbacks (constructor, reset_<a>, del, reset()). "
     "A case is non-trivial per call that changed state, returned a new object or raised; distinct = distinct "
     "(family, pre-state, call) triples."
 )
@@ -66,6 +87,11 @@ ASSUMPTIONS = [
     "frozen classes, do_not_copy, KeyedList/KeyedSet attributes and init=False are covered by C07/C02/C13/C14/C09",
     "overflow classes (init_overflow_attr): no sentinel among the extra constructor keywords (it would sit inside the "
     "collected dict); collections of overflow-class items are prepared by the overflow-free knot (not generated)",
+    "which callback applies is taken from the documentation where it says so (a `_prepare_` method is inherited like any "
+    "method; an Attr object carries what its decorators registered); where it does not (both spellings with different "
+    "callbacks in sight, a decorator registration on an Attr a subclass declares anew, a method overridden by a class that "
+    "does not declare the attribute) only the correspondence with Decl.bootstrap judges",
+    "Attr(...) objects appear in spec class bodies only (not in plain classes / mixins); single inheritance",
 ]
 OPEN_STATEMENTS = [
     "MissingNoopFull (MISSING/EMPTY make every scalar helper a no-op returning the receiver) is refuted by "
@@ -197,6 +223,165 @@ FAMILY_PREP = {
          "attrs": []},
     ]
 }
+
+
+def AD(name, ty, dk="attrnone", d=None, prep=None, ip=None, inv=None, dprep=None, dip=None):
+    """an attribute whose callbacks are (also) registered with the decorators of its `Attr(...)` object"""
+    out = A(name, ty, dk, d, prep, ip, inv)
+    out["dprep"], out["dip"] = dprep, dip
+    return out
+
+
+# every way a preparer / item preparer / default / default_factory can be declared: `_prepare_<a>` method, `@<a>.preparer`
+# / `@<a>.item_preparer` on an `Attr(...)` object (with default, default_factory, without default), both at once; inherited
+# untouched, by re-defaulting / re-annotating / `Attr`-redeclaring spec subclasses and plain subclasses; methods
+# overridden in spec and plain subclasses with and without a new declaration of the attribute.
+FAMILY_DECL = {
+    "decl": True,
+    "classes": [
+        {"id": 1, "kind": "spec", "base": None, "key": None, "attrs": [
+            A(0, INT, "attr", "i2"), AD(1, INT, "attr", "i3", dprep=4), AD(2, STR, "attr", "s101", dprep=2)]},
+        {"id": 0, "kind": "spec", "base": None, "key": None, "attrs": [
+            AD(0, INT, "attr", "i1", dprep=0),                       # Attr(default=…) + @a0.preparer
+            AD(1, INT, "attrnone", None, dprep=4),                   # Attr() + @a1.preparer (reads a0)
+            A(2, STR, "attr", "s100", prep=2),                       # Attr(default=…) + _prepare_a2
+            AD(3, ["list", INT], "attrfactory", "L 1 i7", dip=0),    # Attr(default_factory=…) + @a3.item_preparer
+            AD(4, ["set", INT], "attrfactory", "S 1 i1", dip=1),
+            AD(5, ["dict", STR, INT], "attrnone", None, dip=0),
+            AD(6, INT, "attr", "i2", prep=1, dprep=0),               # both spellings, different callbacks
+            AD(7, V.opt(INT), "attr", "N", dprep=7),
+            AD(8, ["spec", 1], "attrnone", None, dprep=5),           # dict-producing preparer, by decorator
+            A(9, INT, "value", "i10", inv=[0]),                      # dependant of an attribute prepared by decorator
+            AD(10, STR, "attrnone", None, dprep=3),
+            AD(11, ["list", INT], "attrfactory", "L 0", ip=1, dip=1),   # both spellings, the same callback
+            A(12, INT, "value", "i3", prep=6),                       # plain value + _prepare_a12
+            AD(13, ["list", INT], "attr", "L 1 i2", dip=0),          # Attr(default=<mutable>) + @a13.item_preparer
+            A(14, ["spec", 1]),
+        ]},
+        # (do_not_copy differing from the parent: the inherited Attr objects are copied / rebuilt, callbacks included)
+        {"id": 2, "kind": "spec", "base": 0, "key": None, "dnc": [0, 3, 12], "attrs": [AD(15, INT, "attr", "i4", dprep=4)]},
+        {"id": 3, "kind": "plain", "base": 2, "over": {"0": "i10", "2": "s102", "15": "i0", "3": "L 1 i4"}},
+        {"id": 4, "kind": "spec", "base": 0, "key": None, "reann": {"0": "i3", "2": None, "12": "i4"}, "attrs": []},
+        {"id": 5, "kind": "spec", "base": 0, "key": None, "attrs": [], "redecl": {
+            "0": {"dk": "attr", "d": "i6", "ann": True, "dprep": 1, "dip": None},
+            "3": {"dk": "attrfactory", "d": "L 1 i3", "ann": False, "dprep": None, "dip": 1},
+            "12": {"dk": "attr", "d": "i5", "ann": False, "dprep": None, "dip": None},
+            "10": {"dk": "attr", "d": "s101", "ann": True, "dprep": None, "dip": None},
+            "4": {"dk": "attrnone", "d": None, "ann": True, "dprep": None, "dip": 0},
+            "7": {"dk": "attr", "d": "i4", "ann": False, "dprep": None, "dip": None},
+            "13": {"dk": "attrfactory", "d": "L 1 i5", "ann": False, "dprep": None, "dip": None}}},
+        {"id": 6, "kind": "plain", "base": 5, "over": {"0": "i2", "12": "i6"}},
+        {"id": 7, "kind": "spec", "base": 0, "key": None, "attrs": [], "pm": {"2": 3, "0": 1}, "ipm": {"3": 1}},
+        {"id": 8, "kind": "plain", "base": 0, "pm": {"2": 3, "0": 1, "12": 0}, "ipm": {"4": 0}, "over": {"12": "i1"}},
+        {"id": 9, "kind": "spec", "base": 7, "key": None, "attrs": [], "reann": {"2": None, "0": None}},
+        {"id": 10, "kind": "spec", "base": 0, "key": None, "dnc": [2, 4], "attrs": [], "over": {"2": "s101", "12": "i0"}},
+        {"id": 11, "kind": "spec", "base": 10, "key": None, "attrs": [], "redecl": {
+            "2": {"dk": "attrnone", "d": None, "ann": True, "dprep": 3, "dip": None}}},
+        {"id": 12, "kind": "plain", "base": 11, "over": {"0": "i0"}},
+        # re-defaulting spec subclasses (since /repo a169c24 the inherited helpers prepare as `obj.a = v` does):
+        # re-default + own `_prepare_…` (attribute spelled by method, by decorator, both; item preparers)
+        {"id": 13, "kind": "spec", "base": 0, "key": None, "attrs": [],
+         "over": {"2": "s102", "0": "i4", "12": "i2", "6": "i3", "3": "L 1 i2", "11": "L 1 i5"},
+         "pm": {"2": 3, "0": 1, "12": 0, "6": 6}, "ipm": {"3": 1, "11": 0}},
+        {"id": 14, "kind": "plain", "base": 13, "over": {"2": "s101", "0": "i1"}, "pm": {"12": 1}},
+        # re-default below a class that only overrides the methods: the overrides become effective here
+        {"id": 15, "kind": "spec", "base": 7, "key": None, "attrs": [], "over": {"2": "s101", "0": "i5", "3": "L 1 i1"}},
+        # re-default of an attribute with both spellings (the method is found again), below a redeclaring class
+        {"id": 16, "kind": "spec", "base": 5, "key": None, "attrs": [], "over": {"6": "i0", "12": "i7"}, "pm": {"10": 2}},
+        # re-default of attributes whose callbacks were registered by decorator, no method in sight (since /repo 62b86d6
+        # the registrations are carried over): scalars, item preparers, dict-producing preparer's neighbour, Optional;
+        # plain subclass, a second re-default and a differing do_not_copy below; re-default below the untouched class 2,
+        # below the redeclaring class 5 (new decorators), below the re-annotating class 4 (registration dropped there)
+        {"id": 17, "kind": "spec", "base": 0, "key": None, "attrs": [],
+         "over": {"0": "i4", "1": "i2", "3": "L 1 i2", "4": "S 1 i2", "5": "D 1 s100 i3", "7": "i5", "10": "i7", "13": "L 2 i1 i3",
+                  "11": "L 1 i4"}},
+        {"id": 18, "kind": "plain", "base": 17, "over": {"0": "i3", "3": "L 1 i6"}},
+        {"id": 19, "kind": "spec", "base": 17, "key": None, "dnc": [0, 3], "attrs": [], "over": {"0": "i6", "4": "S 1 i5", "7": "N"}},
+        {"id": 20, "kind": "spec", "base": 2, "key": None, "attrs": [], "over": {"15": "i2", "0": "i3", "3": "L 1 i9"}},
+        {"id": 21, "kind": "spec", "base": 5, "key": None, "attrs": [], "over": {"0": "i8", "3": "L 1 i8", "4": "S 1 i3", "7": "i1"}},
+        {"id": 22, "kind": "spec", "base": 4, "key": None, "attrs": [], "over": {"0": "i9", "1": "i1"}},
+    ]
+}
+
+
+def applicable_preps(ad):
+    ty = ad["ty"]
+    if ty == INT:
+        return [0, 1, 6] + ([4] if ad["name"] > 0 else [])
+    if ty == STR:
+        return [2, 3]
+    if ty == V.opt(INT):
+        return [7]
+    if ty[0] == "spec":
+        return [5]
+    return []
+
+
+def applicable_ips(ad):
+    return [0, 1] if ad["ty"] in (["list", INT], ["set", INT], ["dict", STR, INT]) else []
+
+
+def decorate_family(rng, fam):
+    """the same family with its callbacks declared in every spelling: about half of the `_prepare_…` methods become
+    decorator registrations on `Attr(...)` objects (some get both, some attributes without callback get a decorator);
+    subclasses override methods, re-default, re-annotate, or redeclare inherited attributes with new `Attr(...)`
+    objects."""
+    fam = copy.deepcopy(fam)
+    fam.pop("decl", None)          # (set when complete: `effective_attrs` memoises families that carry it)
+    for cd in fam["classes"]:
+        if cd["kind"] != "spec":
+            continue
+        for ad in cd.get("attrs", []):
+            if ad.get("inv") or ad["dk"] not in ("none", "value", "factory", "attr", "attrfactory"):
+                continue
+            if cd.get("key") == ad["name"]:
+                continue
+            for m, d, pool in (("prep", "dprep", applicable_preps(ad)), ("ip", "dip", applicable_ips(ad))):
+                if not pool:
+                    continue
+                r = rng.random()
+                if ad.get(m) is not None:
+                    if r < 0.5:
+                        ad[d], ad[m] = ad[m], None
+                    elif r < 0.62:
+                        ad[d] = rng.choice(pool)
+                elif r < 0.15:
+                    ad[d] = rng.choice(pool)
+            if ad.get("dprep") is not None or ad.get("dip") is not None:
+                ad["dk"] = {"none": "attrnone", "value": "attr", "factory": "attrfactory"}.get(ad["dk"], ad["dk"])
+    for cd in fam["classes"]:
+        if cd.get("base") is None:
+            continue
+        eff = [ad for ad in V.effective_attrs(fam, cd["base"]) if not ad.get("ovf") and not ad.get("inv")
+               and V.effective_key(fam, cd["base"]) != ad["name"]]
+        for ad in rng.sample(eff, min(len(eff), rng.randint(0, 3))):
+            sa = str(ad["name"])
+            how = rng.choice(["pm", "pm", "redecl", "reann"] if cd["kind"] == "spec" else ["pm"])
+            has_spec = any(m[0] == "spec" for m in V.union_members(ad["ty"]))
+            if how == "pm":
+                if applicable_preps(ad) and rng.random() < 0.7:
+                    cd.setdefault("pm", {})[sa] = rng.choice(applicable_preps(ad))
+                if applicable_ips(ad) and rng.random() < 0.7:
+                    cd.setdefault("ipm", {})[sa] = rng.choice(applicable_ips(ad))
+            elif how == "redecl" and not has_spec:
+                mutable = ad["ty"][0] in ("list", "set", "dict")
+                dk = rng.choice(["attrfactory", "attr", "attrnone", "fieldfactory"] if mutable
+                                else ["attr", "attr", "attrnone", "field"])
+                rd = {"dk": dk, "d": None if dk == "attrnone" else gen_value(rng, fam, ad["ty"], 0),
+                      "ann": rng.random() < 0.5, "dprep": None, "dip": None}
+                if dk in ("attr", "attrfactory", "attrnone"):
+                    if applicable_preps(ad) and rng.random() < 0.5:
+                        rd["dprep"] = rng.choice(applicable_preps(ad))
+                    if applicable_ips(ad) and rng.random() < 0.5:
+                        rd["dip"] = rng.choice(applicable_ips(ad))
+                cd.setdefault("redecl", {})[sa] = rd
+                (cd.get("over") or {}).pop(sa, None)
+            elif how == "reann" and not has_spec and ad.get("dk") in ("none", "value", "attr", "attrnone"):
+                keep = ad.get("dk") in ("none", "value", "attr") and rng.random() < 0.4
+                cd.setdefault("reann", {})[sa] = None if keep else gen_value(rng, fam, ad["ty"], 0)
+                (cd.get("over") or {}).pop(sa, None)
+    fam["decl"] = True
+    return fam
 
 
 def lazy_variant(fam):
@@ -800,15 +985,17 @@ def inv_cases(rng, fam, fname):
                     yield {"family": fam, "fname": fname, "cls": cid, "init": [], "ops": ops, "origin": "directed-invalidation"}
 
 
-def prep_inherit_cases(rng, fam, fname):
+def prep_inherit_cases(rng, fam, fname, flags=("-", "i", "a"), only=None):
     """
     Preparers / item preparers declared on a base class must still apply in spec subclasses that re-default or
     re-annotate the attribute (and in their plain subclasses): every route, with values the preparer changes.
     """
     for cid in top_classes(fam):
+        if only is not None and cid not in only:
+            continue
         eff = [ad for ad in V.effective_attrs(fam, cid) if (ad.get("prep") is not None or ad.get("ip") is not None)
                and ad["ty"][0] != "spec"]
-        for fl in ("-", "i", "a"):
+        for fl in (flags or (rng.choice(("-", "i", "a")),)):
             ops = []
             for ad in eff:
                 a = ad["name"]
@@ -825,6 +1012,32 @@ def prep_inherit_cases(rng, fam, fname):
                 init = [[ad["name"], gen_arg(rng, fam, ad, sentinel_p=0.0, bad_p=0.0)] for ad in eff[:3]]
                 yield {"family": fam, "fname": fname, "cls": cid, "init": init if i else [], "ops": ops[i:i + 12],
                        "origin": "directed-inherited-preparer"}
+
+
+def decl_default_cases(rng, fam, fname, flags=("-", "i"), only=None):
+    """
+    Defaults run through the callbacks as well: for every receiver class of a family with declared callbacks, construct
+    it (defaults of every kind through preparer / item preparer of every spelling), with keywords for the prepared
+    attributes, and put every prepared attribute back at its default (reset_<a>, del, reset()), by copy and in place.
+    """
+    for cid in top_classes(fam):
+        if only is not None and cid not in only:
+            continue
+        eff = [ad for ad in V.effective_attrs(fam, cid) if ad["ty"][0] != "spec"
+               and any(L["deco"] is not None or L["method"] is not None
+                       for w in ("p", "i") for L in V.decl_chain(fam, cid, ad["name"], w))]
+        for fl in (flags or (rng.choice(("-", "i")),)):
+            ops = []
+            for ad in eff:
+                a = ad["name"]
+                ops += [{"k": "set", "a": a, "v": gen_arg(rng, fam, ad, sentinel_p=0.0, bad_p=0.0)},
+                        rng.choice([{"k": "rst", "fl": fl, "a": a}, {"k": "del", "a": a}])]
+            ops.append({"k": "RST", "fl": fl})
+            for i in range(0, len(ops), 14):
+                init = [[ad["name"], gen_arg(rng, fam, ad, sentinel_p=0.0, bad_p=0.0)]
+                        for ad in rng.sample(eff, min(len(eff), 3))]
+                yield {"family": fam, "fname": fname, "cls": cid, "init": init if i or fl == "i" else [],
+                       "ops": ops[i:i + 14], "origin": "directed-declared-default"}
 
 
 def ctor_kw(rng, fam, c, avoid=None):
@@ -1018,8 +1231,13 @@ def gen_cases(tier, rng):
     fams = [("main", FAMILY_MAIN), ("prep", FAMILY_PREP), ("falsy", FAMILY_FALSY), ("inv", FAMILY_INV),
             ("lazy", lazy_variant(FAMILY_PREP))] + [(f"rnd{i}", random_family(rng)) for i in range(nfam)]
     ovfs = [("ovf", FAMILY_OVF), ("ovflazy", lazy_variant(FAMILY_OVF)), ("ovftop", FAMILY_OVFTOP)]
+    # callbacks declared in every spelling (decorators on Attr objects, methods, overridden / redeclared in subclasses)
+    ndecl = {"quick": 3, "thorough": 20, "search": 8}[tier]
+    decls = [("decl", FAMILY_DECL), ("decllz", lazy_variant(FAMILY_DECL))] + [
+        (f"dcl{i}", decorate_family(rng, random_family(rng))) for i in range(ndecl)]
+    decls += [(f"dlz{i}", lazy_variant(fam)) for i, (_, fam) in enumerate(decls[2:4])]
     if tier == "search":
-        fams = fams + ovfs
+        fams = fams + ovfs + decls + decls[:2]
         while True:
             r = rng.random()
             fname, fam = rng.choice(fams)
@@ -1045,11 +1263,21 @@ def gen_cases(tier, rng):
         yield from inv_cases(rng, fam, fname)
     yield from prep_inherit_cases(rng, FAMILY_PREP, "prep")
     yield from prep_inherit_cases(rng, fams[4][1], "lazy")
+    for fname, fam in decls:
+        # (quick: one flag combination per receiver class and run, and half of the receiver classes of the two big
+        #  hand-written families; the seeds / the thorough tier cover the others)
+        tops = top_classes(fam)
+        only = set(rng.sample(tops, (len(tops) + 1) // 2)) if tier == "quick" and len(tops) > 8 else None
+        yield from prep_inherit_cases(rng, fam, fname, flags=None if tier == "quick" else ("-", "i", "a"), only=only)
+        yield from decl_default_cases(rng, fam, fname, flags=None if tier == "quick" else ("-", "i"), only=only)
     n = 1000 if tier == "quick" else 22000
     for i in range(n):
         fname, fam = fams[i % len(fams)] if rng.random() < 0.7 else rng.choice(fams[:5])
-        if rng.random() < 0.15:
+        r = rng.random()
+        if r < 0.15:
             fname, fam = rng.choice(ovfs)
+        elif r < 0.33:
+            fname, fam = rng.choice(decls)
         yield gen_case(rng, fam, fname, rng.randint(4, 14))
 
 
@@ -1090,8 +1318,22 @@ def is_args(case):
 
 def n_header(case):
     """protocol lines before the `new` line: reset, the class table, the overflow declarations"""
-    fam = case["family"]
-    return 1 + len(fam["classes"]) + len(V.ovf_lines(fam))
+    return len(header_lines(case["family"]))
+
+
+_HEADERS = {}
+
+
+def header_lines(fam):
+    """reset, the class table, the raw declarations of the callbacks (resolved by the model itself), the overflow
+    declarations; memoised per family object"""
+    hit = _HEADERS.get(id(fam))
+    if hit is None or hit[0] is not fam:
+        if len(_HEADERS) > 4000:
+            _HEADERS.clear()
+        hit = (fam, ["reset"] + V.class_lines(fam) + V.pdecl_lines(fam) + V.ovf_lines(fam))
+        _HEADERS[id(fam)] = hit
+    return hit[1]
 
 
 def model_lines(case):
@@ -1099,7 +1341,7 @@ def model_lines(case):
         return (["reset"] + [f"sig {fd['id']} {args_sig(fd)}" for fd in case["fns"]]
                 + [f"args {f} {len(names)} " + " ".join(str(n) for n in names) for f, names in case["calls"]])
     fam = case["family"]
-    return (["reset"] + V.class_lines(fam) + V.ovf_lines(fam) + [f"new {case['cls']} {kw_tokens(case['init'])}"]
+    return (header_lines(fam) + [f"new {case['cls']} {kw_tokens(case['init'])}"]
             + [op_line(op) for op in case["ops"]])
 
 
@@ -1349,6 +1591,8 @@ def doc_default(fam, cid, a):
 
 def doc_prepared(fam, inst, ad, v):
     """the value `with_<a>(v)` stores: preparer, dict -> nested spec, collection normalisation"""
+    if ad.get("prep_undoc"):
+        raise Undoc("which preparer applies to this class is not documented")
     if ad.get("prep") is not None:
         v = V.PREPARERS[ad["prep"]](_NS(fam, inst), v)
     ty = ad["ty"]
@@ -1367,6 +1611,8 @@ def doc_prepared(fam, inst, ad, v):
             v = {"list": [], "set": set(), "dict": {}}[ty[0]]
         if is_sentinel(v):
             return v
+        if ad.get("ip_undoc"):
+            raise Undoc("which item preparer applies to this class is not documented")
         ip = V.PREPARERS[ad["ip"]] if ad.get("ip") is not None else None
         if ty[0] == "dict":
             if not isinstance(v, dict):
@@ -1869,7 +2115,7 @@ def shrink(case, at=None):
 
 
 MANIFEST_ENTRY = {
-    "level_text": "Lean 4 proof that the Impl model of the scalar and top-level helpers (mutate_value's eight steps, prepare_attr_value, mutate_attr, the generated __init__/__setattr__/__delattr__, with_/update_/transform_/reset_<attr>, update/transform/reset, for any class table, any pure preparers/transforms, any fuel) refines a direct transcription of the documentation (Spec.Doc.apply), that the in-place run leaves on the receiver exactly the state the copy run returns and returns the receiver, that obj.a = v is with_a(v, _inplace=True), update(**kw) is the fold of with_<a>, with_a(**kw) stores the freshly constructed nested instance, del is reset_<a>(_inplace=True), and that _if=False and UNCHANGED are no-ops returning the receiver; MISSING is a no-op only under the negation of the finding's matcher (missing_noop_partial) and a decided witness refutes the full statement. The model is tied to /repo on every run by executing the same call histories (every helper x call form x _inplace x _if, from reachable states, over hand-written and random class families) on the real classes and on the model and comparing returned object, exception class and receiver state after every call; an independent interpreter of the documentation over plain containers and relational checks on the real code judge every case. Constructors that take **kwargs (init_overflow_attr) and the per-function memo of _get_function_args are modelled in Model/C05Ov.lean: the memo never changes an answer over any call history (args_memo_never_stale), the constructor keywords are a function of the signature and of the keywords of the call (ctor_keywords_from_signature), with_a(**kw) stores the value built from every keyword of that call (with_keywords_builds_overflow), the overflow attribute holds exactly the extra keywords in call order (overflow_collects_extras), and the overflow-aware model coincides with the original one on class tables without overflow classes (ov_conservative); tied to /repo by histories of repeated keyword constructions with different keyword sets and by histories of _get_function_args calls on fresh constructors.",
+    "level_text": "Lean 4 proof that the Impl model of the scalar and top-level helpers (mutate_value's eight steps, prepare_attr_value, mutate_attr, the generated __init__/__setattr__/__delattr__, with_/update_/transform_/reset_<attr>, update/transform/reset, for any class table, any pure preparers/transforms, any fuel) refines a direct transcription of the documentation (Spec.Doc.apply), that the in-place run leaves on the receiver exactly the state the copy run returns and returns the receiver, that obj.a = v is with_a(v, _inplace=True), update(**kw) is the fold of with_<a>, with_a(**kw) stores the freshly constructed nested instance, del is reset_<a>(_inplace=True), and that _if=False and UNCHANGED are no-ops returning the receiver; MISSING is a no-op only under the negation of the finding's matcher (missing_noop_partial) and a decided witness refutes the full statement. The model is tied to /repo on every run by executing the same call histories (every helper x call form x _inplace x _if, from reachable states, over hand-written and random class families) on the real classes and on the model and comparing returned object, exception class and receiver state after every call; an independent interpreter of the documentation over plain containers and relational checks on the real code judge every case. Constructors that take **kwargs (init_overflow_attr) and the per-function memo of _get_function_args are modelled in Model/C05Ov.lean: the memo never changes an answer over any call history (args_memo_never_stale), the constructor keywords are a function of the signature and of the keywords of the call (ctor_keywords_from_signature), with_a(**kw) stores the value built from every keyword of that call (with_keywords_builds_overflow), the overflow attribute holds exactly the extra keywords in call order (overflow_collects_extras), and the overflow-aware model coincides with the original one on class tables without overflow classes (ov_conservative); tied to /repo by histories of repeated keyword constructions with different keyword sets and by histories of _get_function_args calls on fresh constructors. Where the class-table entry of a preparer / item preparer comes from is modelled in Model/C05Decl.lean (bootstrap / build_attr_spec / Attr.from_attr_value for one attribute over any class hierarchy: _prepare_ methods, decorator registrations on Attr objects, re-defaulting / re-annotating / redeclaring spec subclasses, plain subclasses): closed form for every hierarchy (bootstrap_prep_closed_form), a decorator-registered callback is the entry and the helpers' callback wherever no method is in sight (decorator_preparer_registered, end to end decorator_preparer_applied), the nearest method beats the decorator (method_beats_decorator), untouched subclasses inherit (untouched_subclass_inherits), the generated helpers prepare with the entry of the instance's class as assignment does (helper_prepares_as_setattr, the full statement since /repo a169c24; helper_owner_spec_witness is the legacy counter-model of the closure-based helpers), a merely re-defaulting spec subclass has the method found by name and otherwise its parent's callback, decorator registrations included (redefault_keeps_callback, the full statement since /repo 62b86d6; redefault_drops_decorator_witness is the legacy counter-model on bootstrapLegacy); tied to /repo by handing the raw declarations of every family to the model (pdecl lines), which computes the entries itself.",
     "level_note": "Trusted: Lean kernel; axioms propext/Classical.choice/Quot.sound only; the hand-written value-level model (no object identities beyond 'the receiver itself is returned'), the class-family builder and the correspondence harness. Preparers/transforms pure and total. transform_/update_ store through the assignment pipeline (preparer re-applied). Open finding KF-C05-missing-constructs: MISSING/EMPTY default-construct the annotation instead of being a no-op.",
     "technique": "Lean 4 refinement + algebraic-law proofs over a hand-written model; differential correspondence against the real helpers; documentation interpreter as independent oracle",
 }
